@@ -165,6 +165,11 @@ def run(ctx):
             report("%d slices counted usable but only %d are present anywhere in the surviving protected files (%s)" % (ca["usable"], present, c["desc"]), replay); continue
         if ca["usable"] < intact:
             report("%d slices belong to undamaged files but only %d are counted usable (%s)" % (intact, ca["usable"], c["desc"]), replay); continue
+        truth = P.independent_usable(ps, c["fs"])
+        if truth is not None:
+            dist["independent_count_cases"] = dist.get("independent_count_cases", 0) + 1
+            if ca["usable"] != truth:
+                report("%d slices are present contiguously and without overlap in the surviving protected files (counted from the originals alone) but Verify counts %d usable (%s)" % (truth, ca["usable"], c["desc"]), replay); continue
         if ca["usable"] + ca["unusable"] != len(sl):
             report("usable + unusable = %d but the set has %d slices (%s)" % (ca["usable"] + ca["unusable"], len(sl), c["desc"]), replay); continue
         # (c) usable recovery blocks = blocks in the surviving (undamaged) recovery files
